@@ -99,11 +99,11 @@ Proof.
   rewrite firstn_length, skipn_length. lia.
 Qed.
 
-Lemma slice_lookup c g lo hi : c_flavour c = FObserver0D ->
+Lemma slice_lookup c g lo hi :
   getitem c (KSlice lo hi) g = RMems (map mid (slice_of g lo hi))
   /\ exists pre post, g = pre ++ slice_of g lo hi ++ post.
 Proof.
-  intro F. unfold getitem. rewrite F. split; [reflexivity | apply slice_is_contiguous].
+  unfold getitem. split; [destruct (c_flavour c); reflexivity | apply slice_is_contiguous].
 Qed.
 
 (* ---- retrieval by name --------------------------------------------------------------------------- *)
@@ -351,6 +351,13 @@ Proof.
   split; [exact N|]. split; [reflexivity|]. now apply (observe_once c e g).
 Qed.
 
-(* ---- BolometerCamera: retrieval by slice is NOT provided by the code ------------------------------- *)
-Lemma bolometer_slice_refuted : forall g lo hi, getitem cls_BolometerCamera (KSlice lo hi) g = RErr EType.
+(* ---- record of finding (fixed in /repo by c11e2e2): BolometerCamera.__getitem__ before the fix ---- *)
+(* only int and str keys were accepted, every slice was answered with TypeError *)
+Definition getitem_bolo_unfixed (k : key) (g : group) : res :=
+  match k with
+  | KSlice _ _ => RErr EType
+  | _ => getitem_bolo k g
+  end.
+
+Lemma bolometer_slice_refuted_unfixed : forall g lo hi, getitem_bolo_unfixed (KSlice lo hi) g = RErr EType.
 Proof. reflexivity. Qed.
